@@ -136,6 +136,8 @@ def run(ctx):
 
     fails, cov_events, episodes_all, tr_states, tr_trans = [], 0, 0, 0, 0
     laws = 0
+    n_evals = 0
+    nontrivial = set()
     outs = {}
     for specs, module in ((rspecs, "Trace_Rules"), (lspecs, "Trace_Layers"), (vspecs, "Trace_Labels")):
         episodes = runner.run_specs(specs)
@@ -146,6 +148,18 @@ def run(ctx):
         tr_states += tr.states
         tr_trans += tr.transitions
         n = sum(1 for ep in episodes for e in ep if e["k"] == "law" and e["law"] == "rename")
+        n_evals += sum(1 for ep in episodes for e in ep if e["k"] in ("eval", "leval", "viz"))
+        # non-trivial rename instance: the related evaluation failed with a message / labelled with at least one alias
+        for ep in episodes:
+            eouts = {}
+            for e in ep:
+                if e["k"] in ("eval", "leval"):
+                    eouts.setdefault(e["rid"], []).append(e["out"])
+                elif e["k"] == "viz":
+                    eouts.setdefault(e["rid"], []).append("fail" if e["aliases"] else "pass")
+            for e in ep:
+                if e["k"] == "law" and e["law"] == "rename" and "fail" in eouts.get(e["rids"][0], []):
+                    nontrivial.add(json.dumps([ep[0].get("modules"), ep[0].get("imports"), e["rids"][0], e["as"][1][-4:]]))
         outs[module] = {"episodes": len(episodes), "rename_law_instances": n,
                         "failing_or_labelled": sum(1 for ep in episodes for e in ep
                                                    if e.get("out") in ("fail", "ok"))}
@@ -180,7 +194,8 @@ def run(ctx):
     cov = {"states": mc.distinct + tr_states, "transitions": mc.generated + tr_trans,
            "model_states": mc.distinct, "model_transitions": mc.generated,
            "traces_validated_against_impl": episodes_all, "trace_events": cov_events,
-           "rename_law_instances": laws, "by_family": outs, "evaluations": laws, "distinct_nontrivial": laws,
+           "rename_law_instances": laws, "by_family": outs, "evaluations": n_evals + len(flat),
+           "distinct_nontrivial": len(nontrivial) + sum(1 for ep in seps if any(e["k"] == "scan" and e["imports"] for e in ep)),
            "rule": "one case = one abstract <world, rule | layer rule | alias map> evaluated on the real code under two "
                    "injective component renamings and compared after mapping names back; the specification's own "
                    "verdict is checked for each rendering as well",
